@@ -89,7 +89,8 @@ def _generate_model_code(
     if len(parameters) > 0:
         source.append(
             "\n".join(
-                assignment_template.format(k=k, v=v) for k, v in parameters.items()
+                assignment_template.format(k=k, v=float(v))
+                for k, v in parameters.items()
             )
         )
 
